@@ -55,6 +55,26 @@ func dnsQueryCarrying(id uint16, name string, marker net.IP) []byte {
 
 func markerOf(id uint16) net.IP { return net.IP{10, 7, byte(id >> 8), byte(id)} }
 
+// dnsResponseT answers a question of the given type (1 = A, 28 = AAAA) with one record of that type.
+func dnsResponseT(id uint16, name string, qtype uint16, rdata []byte) []byte {
+	b := make([]byte, 12)
+	binary.BigEndian.PutUint16(b[0:], id)
+	binary.BigEndian.PutUint16(b[2:], 0x8000)
+	binary.BigEndian.PutUint16(b[4:], 1)
+	binary.BigEndian.PutUint16(b[6:], 1)
+	b = append(b, dnsName(name)...)
+	b = append(b, byte(qtype>>8), byte(qtype), 0, 1)
+	b = append(b, dnsName(name)...)
+	b = append(b, byte(qtype>>8), byte(qtype), 0, 1, 0, 0, 0, 30, byte(len(rdata)>>8), byte(len(rdata)))
+	return append(b, rdata...)
+}
+
+func llIP6(i int) net.IP {
+	return net.IP{0xfd, 0, 0, 0, 0, 0, 0, 0, 0, 0, 0, 0, 0, 3, byte(i >> 8), byte(i)}
+}
+
+func wireKey(name string, qtype uint16) string { return fmt.Sprintf("%s/%d", name, qtype) }
+
 func dnsResponse(id uint16, flags uint16, name string, ip net.IP) []byte {
 	b := make([]byte, 12)
 	binary.BigEndian.PutUint16(b[0:], id)
@@ -72,6 +92,7 @@ type dnsMsg struct {
 	id      uint16
 	flags   uint16
 	qnames  []string
+	qtypes  []uint16
 	answers []nbAnswer
 	ok      bool
 }
@@ -127,6 +148,7 @@ func dnsParse(b []byte) dnsMsg {
 			return m
 		}
 		m.qnames = append(m.qnames, n)
+		m.qtypes = append(m.qtypes, binary.BigEndian.Uint16(b[o:]))
 		off = o + 4
 	}
 	for i := 0; i < an; i++ {
@@ -151,7 +173,8 @@ func llIP(i int) net.IP   { return net.IP{10, 3, byte(i >> 8), byte(i)} }
 // ---------------------------------------------------------------- LLMNR server and / or client
 
 type llQuery struct {
-	carry  bool // raw clients: the query carries a record whose address the responder must echo
+	qtype  uint16 // real client: 1 (A) or 28 (AAAA)
+	carry  bool   // raw clients: the query carries a record whose address the responder must echo
 	name   int
 	id     uint16 // raw clients: chosen; real client: learnt from the wire
 	cancel int64  // real client: cancel the context after this long (0 = never)
@@ -204,8 +227,9 @@ func runLLMNR(w *rt.World, res *hx.Result, realServer, realClient bool) *hx.Viol
 	}
 	nClients := 1 + hx.G(maxClients)
 	chain := hx.G(4) // 3: the first handler closes the server from inside the handler goroutine when it sees the poison name
-	stopMode := hx.F(8)
-	stopAt := [...]int64{0, 0, 0, 0, 0, 50e6, 1e9, 2500e6}[stopMode] // modes 3 and 4: at time 0, racing with ListenAndServe
+	stopMode := hx.F(10)
+	// modes 3 and 4: at time 0, racing with ListenAndServe; 8: while a handler chain is running; 9: while a SUT task waits for a lock
+	stopAt := [...]int64{0, 0, 0, 0, 0, 50e6, 1e9, 2500e6, 0, 0}[stopMode]
 	stopTwice := hx.F(3) == 0
 	clientCloseMode := hx.F(6)
 	strayMode := hx.F(4)
@@ -216,6 +240,7 @@ func runLLMNR(w *rt.World, res *hx.Result, realServer, realClient bool) *hx.Viol
 		group = &net.UDPAddr{IP: net.ParseIP("FF02::1:3"), Port: 5355}
 	}
 	timeoutKnob := hx.G(3) // real client: Timeout 2 s (default), 300 ms, 5 s
+	dbgDescribe := hx.G(2) == 0
 	jitter := hx.G(3) == 0 // the responder handler answers after it returned, from a timer (RFC 4795 jitter), through the writer it was given
 
 	canaryRan := false
@@ -231,7 +256,11 @@ func runLLMNR(w *rt.World, res *hx.Result, realServer, realClient bool) *hx.Viol
 			for i := 0; i < nNames; i++ {
 				if known[i] && llName(i) == name {
 					resp := llmnr.CreateResponseFromMessage(msg)
-					resp.AddAnswerClassINTypeA(name, llIP(i).String())
+					if msg.Questions[0].Type == llmnr.TypeAAAA {
+						resp.AddAnswerClassINTypeAAAA(name, llIP6(i).String())
+					} else {
+						resp.AddAnswerClassINTypeA(name, llIP(i).String())
+					}
 					if len(msg.Answers) > 0 && len(msg.Answers[0].RData) == 4 {
 						// echo the record the request carried: read from the decoded message when the handler runs
 						resp.AddAnswerClassINTypeA(name, net.IP(msg.Answers[0].RData).String())
@@ -289,8 +318,8 @@ func runLLMNR(w *rt.World, res *hx.Result, realServer, realClient bool) *hx.Viol
 		if err != nil {
 			return &hx.Violation{Class: "start_failed", Key: sysName, Msg: err.Error()}
 		}
-		if chain == 2 {
-			srv.SetDebug(true) // the debug logging paths of Serve run too
+		if chain == 2 || (chain == 1 && dbgDescribe) {
+			srv.SetDebug(true) // the debug logging paths of Serve run too (in chain 1 together with the describe handler's locking)
 		}
 		lsTask = rt.GoHarness("llmnr-listen-and-serve", serverHost, func() { lsErr = srv.ListenAndServe() })
 	}
@@ -328,8 +357,9 @@ func runLLMNR(w *rt.World, res *hx.Result, realServer, realClient bool) *hx.Viol
 					continue
 				}
 				name := m.qnames[0]
+				qtype := m.qtypes[0]
 				if r == 0 {
-					wireID[name] = append(wireID[name], m.id)
+					wireID[wireKey(name, qtype)] = append(wireID[wireKey(name, qtype)], m.id)
 				}
 				if silent {
 					continue
@@ -351,7 +381,11 @@ func runLLMNR(w *rt.World, res *hx.Result, realServer, realClient bool) *hx.Viol
 					rt.Probe(PStrayDelivered)
 					c.WriteToUDP(dnsQuery(m.id, name), src)
 				}
-				c.WriteToUDP(dnsResponse(m.id, 0x8000, name, llIP(idx)), src)
+				if qtype == 28 {
+					c.WriteToUDP(dnsResponseT(m.id, name, 28, llIP6(idx)), src)
+				} else {
+					c.WriteToUDP(dnsResponse(m.id, 0x8000, name, llIP(idx)), src)
+				}
 			}
 		}))
 	}
@@ -373,6 +407,7 @@ func runLLMNR(w *rt.World, res *hx.Result, realServer, realClient bool) *hx.Viol
 	var realQs []*llQuery
 	var cl, cl2 *llmnr.Client // cl2: a second Client instance in the same process (state must not leak between instances)
 	twoClients := hx.G(2) == 0
+	twins := hx.G(3) == 0
 	idc := uint16(0x2000 + hx.G(0x4000))
 	if realClient {
 		mk := rt.GoHarness("client-start", "10.0.1.1", func() {
@@ -402,13 +437,18 @@ func runLLMNR(w *rt.World, res *hx.Result, realServer, realClient bool) *hx.Viol
 		for c := 0; c < nClients; c++ {
 			for q := 0; q < clN[c] && n < 8; q++ {
 				// every Query call asks about its own name so that the wire id can be attributed
-				lq := &llQuery{name: n}
+				lq := &llQuery{name: n, qtype: llmnr.TypeA}
 				if pool[c][q][1] == 0 {
 					lq.cancel = [...]int64{1e6, 100e6, 1e9}[pool[c][q][0]%3]
 				}
+				if twins && n > 0 && n%2 == 1 {
+					// the same name as the previous call, the other record type, on the same Client, at the same time
+					// (what a dual-stack resolver does)
+					lq.name, lq.qtype, lq.cancel = n-1, llmnr.TypeAAAA, realQs[len(realQs)-1].cancel
+				}
 				n++
 				realQs = append(realQs, lq)
-				tasks = append(tasks, rt.GoHarness(fmt.Sprintf("query%d", lq.name), "10.0.1.1", func() {
+				tasks = append(tasks, rt.GoHarness(fmt.Sprintf("query%d/%d", lq.name, lq.qtype), "10.0.1.1", func() {
 					ctx, cancel := context.WithCancel(context.Background())
 					defer cancel()
 					if lq.cancel > 0 {
@@ -422,10 +462,10 @@ func runLLMNR(w *rt.World, res *hx.Result, realServer, realClient bool) *hx.Viol
 					}
 					lq.start = rt.Now()
 					use := cl
-					if cl2 != nil && lq.name%2 == 1 {
+					if cl2 != nil && lq.name%4 >= 2 {
 						use = cl2
 					}
-					lq.resp, lq.err = use.Query(ctx, llName(lq.name), llmnr.TypeA)
+					lq.resp, lq.err = use.Query(ctx, llName(lq.name), lq.qtype)
 					lq.end = rt.Now()
 					lq.done = true
 				}))
@@ -448,8 +488,9 @@ func runLLMNR(w *rt.World, res *hx.Result, realServer, realClient bool) *hx.Viol
 	var stopper, closer *rt.Task
 	stoppedEarly := realServer && chain == 3 && !realClient
 	var stopper2 *rt.Task
+	closeCalled := &rt.Flag{} // set when the stopper is about to call Close (a state-triggered stopper may still be waiting for its moment)
 	if realServer && stopMode >= 3 {
-		if stopTwice {
+		if stopTwice && stopMode < 8 {
 			// further callers close at the same moment from other tasks
 			stopper2 = rt.GoHarness("stopper2", serverHost, func() {
 				rt.SleepUntil(startT + stopAt)
@@ -462,10 +503,22 @@ func runLLMNR(w *rt.World, res *hx.Result, realServer, realClient bool) *hx.Viol
 		}
 		stoppedEarly = true
 		stopper = rt.GoHarness("stopper", serverHost, func() {
-			rt.SleepUntil(startT + stopAt)
-			if stopAt == 0 {
+			switch stopMode {
+			case 8:
+				if rt.WaitState(&rt.StateCond{LiveSite: "processHandlers", LiveAtLeast: 1}, startT+5e9) {
+					rt.Probe(PStopStateTriggered)
+				}
+			case 9:
+				if rt.WaitState(&rt.StateCond{BlockedIn: "sync.Mutex.Lock"}, startT+5e9) {
+					rt.Probe(PStopStateTriggered)
+				}
+			default:
+				rt.SleepUntil(startT + stopAt)
+			}
+			if stopAt == 0 && stopMode < 8 {
 				rt.Probe(PStopBeforeListen)
 			}
+			closeCalled.Set()
 			noteStop()
 			srv.Close()
 			if stopTwice {
@@ -533,6 +586,9 @@ func runLLMNR(w *rt.World, res *hx.Result, realServer, realClient bool) *hx.Viol
 			if stopTwice {
 				stopper2 = rt.GoHarness("stopper2", serverHost, func() { srv.Close() })
 			}
+		}
+		if stopMode >= 3 {
+			closeCalled.Wait(-1) // the bound runs from the call of Close, not from the end of the traffic
 		}
 		if !joinWithin(stopper, llStopBound) {
 			return &hx.Violation{Class: "stop_blocked", Key: sysName, Msg: "Close() did not return; the calling task is " + stopper.StateString()}
@@ -629,13 +685,13 @@ func runLLMNR(w *rt.World, res *hx.Result, realServer, realClient bool) *hx.Viol
 		// discard runs in which the (simulated) random source gave two calls the same id: the statement defines matching by id
 		ids := map[uint16]string{}
 		for _, q := range realQs {
-			for _, id := range wireID[llName(q.name)] {
-				if other, ok := ids[id]; ok && other != llName(q.name) {
+			for _, id := range wireID[wireKey(llName(q.name), q.qtype)] {
+				if other, ok := ids[id]; ok && other != wireKey(llName(q.name), q.qtype) {
 					rt.Probe(PIDCollision)
 					res.Discarded = "two concurrent queries drew the same transaction id"
 					return nil
 				}
-				ids[id] = llName(q.name)
+				ids[id] = wireKey(llName(q.name), q.qtype)
 			}
 		}
 		for _, q := range realQs {
@@ -643,7 +699,7 @@ func runLLMNR(w *rt.World, res *hx.Result, realServer, realClient bool) *hx.Viol
 			if !q.done {
 				continue
 			}
-			sent := wireID[name]
+			sent := wireID[wireKey(name, q.qtype)]
 			if q.err != nil {
 				el := q.end - q.start
 				switch {
@@ -669,6 +725,12 @@ func runLLMNR(w *rt.World, res *hx.Result, realServer, realClient bool) *hx.Viol
 				continue
 			}
 			r := q.resp
+			if r != nil && len(r.Questions) > 0 && !(len(r.Answers) == 1 && r.Answers[0].Name == "stray.invalid") &&
+				r.Questions[0].Name == name && r.Questions[0].Type != q.qtype {
+				// (a response about another NAME is left to the id-based checks below: two calls may have drawn the same id)
+				return &hx.Violation{Class: "client_mismatch", Key: "wrong_question",
+					Msg: fmt.Sprintf("Query(%s, type %d) was handed the response to another question: %s type %d (id %#04x)", name, q.qtype, r.Questions[0].Name, r.Questions[0].Type, r.ID)}
+			}
 			if len(sent) == 0 && r != nil {
 				continue // the sniffer missed the query datagram (dropped): its id cannot be attributed
 			}
@@ -695,14 +757,18 @@ func runLLMNR(w *rt.World, res *hx.Result, realServer, realClient bool) *hx.Viol
 			if len(r.Answers) == 1 && r.Answers[0].Name == "stray.invalid" {
 				continue // a stray whose made-up id happened to equal this query's id: delivering it is matching by id
 			}
-			if len(r.Answers) != 1 || r.Answers[0].Name != name || !net.IP(r.Answers[0].RData).Equal(llIP(q.name)) {
+			wantIP := llIP(q.name)
+			if q.qtype == llmnr.TypeAAAA {
+				wantIP = llIP6(q.name)
+			}
+			if len(r.Answers) != 1 || r.Answers[0].Name != name || r.Answers[0].Type != q.qtype || !net.IP(r.Answers[0].RData).Equal(wantIP) {
 				return &hx.Violation{Class: "client_mismatch", Key: "wrong_content",
 					Msg: fmt.Sprintf("Query(%s) was handed a response whose id matches but whose content is for something else: %+v", name, r.Answers)}
 			}
 		}
 		if probeQ != nil && probeQ.done {
 			name := llName(probeQ.name)
-			ids := wireID[name]
+			ids := wireID[wireKey(name, llmnr.TypeA)]
 			if probeQ.err != nil {
 				return &hx.Violation{Class: "client_mismatch", Key: "wedged",
 					Msg: fmt.Sprintf("after all faults had stopped, Query(%s) on the same client failed (%v) although the responder answered it: the client no longer delivers responses", name, probeQ.err)}
